@@ -94,7 +94,10 @@ def resolved_moments(draw, N):
     minr = 1e9
     for _ in range(nl):
         hi = max(75.0 / step, 1.6)
-        ratio = math.exp(draw(fl(math.log(1.5), math.log(hi))))
+        if draw(st.integers(0, 2)) == 0:
+            ratio = draw(fl(1.5, min(2.6, hi)))          # narrow but resolved lobes (the hard end of the stated domain)
+        else:
+            ratio = math.exp(draw(fl(math.log(1.5), math.log(hi))))
         minr = min(minr, ratio)
         lobes.append((draw(fl(0.2, 1.0)), draw(fl(-math.pi, math.pi)), GM.kappa_for_spread(ratio * step)))
     bg = draw(st.sampled_from([0.0, 0.0, 0.05, 0.3]))
